@@ -77,7 +77,7 @@ def simulate(ctx: Ctx, label, c, *, num, depth, seed, shards=None, init_first=Tr
 
 def err_key(errors):
     e = errors[0]
-    for k in ("exec_unexpected", "reinit_accepted", "initial_method_skipped"):
+    for k in ("exec_unexpected", "reinit_accepted", "initial_method_skipped", "listener_cmd_accepted"):
         if e.startswith(k):
             return k
     return "harness|" + e.split()[0]
@@ -263,7 +263,7 @@ def random_program_gen(rng, end_t, maxev, p_fault, prios=(1, 5, 10), bad=("nan_a
 
 
 def random_run(ctx: Ctx, rng, conc, end_t, warm_t, strategy, *, cmds, p_fault=0.0, maxev=14, ncmds=8, reinit=False,
-               model_factory=None, dispose=True, wide=False, p_strat=0.0, probe_starting=False, p_endrep=0.0, p_cancel=None):
+               model_factory=None, dispose=True, wide=False, p_strat=0.0, probe_starting=False, p_endrep=0.0, p_cancel=None, probe_cmds=False, one_shots=False):
     gen = random_program_gen(rng, end_t, maxev, p_fault, p_cancel=p_cancel if p_cancel is not None else (0.45 if wide else 0.12), p_strat=p_strat, p_endrep=p_endrep)
     init_ops = []
     for _ in range(rng.choice([10, 13, 16]) if wide else rng.choice([1, 2, 3])):
@@ -277,6 +277,8 @@ def random_run(ctx: Ctx, rng, conc, end_t, warm_t, strategy, *, cmds, p_fault=0.
             init_ops.append({"k": "cancel", "a": rng.randrange(1, nsched + 1), "p": 0})
     ctl = dd.SimCtl(conc, end_t, warm_t, strategy, init_ops=init_ops, prog_gen=gen, model_factory=model_factory)
     ctl.probe_starting = probe_starting
+    ctl.probe_cmds = probe_cmds
+    ctl.one_shots = one_shots
     try:
         with dd.quiet():
             ctl.initialize()
